@@ -56,4 +56,9 @@ META = {
         text="Exploration: hundreds of generated histories of bridge traffic with per-oracle confirmation choices, governance proposals of ten shapes (including failing and panicking messages), oracle-list changes and large time jumps drive thousands of real blocks through every begin/end blocker; tiny governance-set signed windows make aged-unconfirmed oracle sets, batches and bridge calls reachable within a few blocks.",
         note="Probabilistic by nature: evidence reports how many blocks ran with aged unconfirmed objects of each kind and how many proposals ended in each status.",
     ),
+    "C10": dict(
+        technique="property-based testing (rapid) over (caller kind x EVM call kind x method x victim-aimed arguments x governance switch setting) through real EVM transactions and a hand-assembled interpreter contract; portfolio-monotonicity oracle for every non-caller account and a differential against a no-op transaction for calls that must fail",
+        text="Exploration: each generated case performs one precompile call on a state where victims hold delegations, accrued rewards, queued withdrawals and allowances; no account other than the direct caller may lose any component of its portfolio (except the allowed shares in transferFromShares, with exact allowance bookkeeping), state-changing methods fail under STATICCALL / DELEGATECALL / CALLCODE and under a governance switch covering the address or method, leaving the state identical to a no-op transaction.",
+        note="The direct caller is the EOA or the interpreter contract; tx.origin differs from it in the contract-via-victim cases.",
+    ),
 }
